@@ -294,7 +294,14 @@ def check_yaml_scalar(ctx: Ctx, text) -> None:
         ctx.disagree("yaml-scalar:round-trip-differs", f"{text!r} -> {out.getvalue()!r} -> {loaded!r}", input=text)
 
 
+def run_fuzz(ctx, spec):
+    from vfw import core
+
+    core.run_atheris(ctx, dict(spec, replay_sub="yaml_scalar"), "yaml_scalar", check_yaml_scalar, 30000 if ctx.tier == "quick" else 1500000)
+
+
 SUBS = [
+    Sub("fuzz_yaml_scalar", runner=run_fuzz, quick=(1, 0), thorough=(4, 0), timeout_quick=300, timeout_thorough=3000),
     Sub("cli_reports", collect=True, fn=check_reports, strategy=report_case, quick=(16, 20), thorough=(16, 400), shrink_quick=False, timeout_quick=600, timeout_thorough=3400),
     Sub("yaml_scalar", fn=check_yaml_scalar, strategy=lambda: yaml_text, quick=(4, 3000), thorough=(16, 60000), timeout_quick=600, timeout_thorough=3400),
 ]
